@@ -25,11 +25,12 @@ Lemma recv_validates_manifest_first :
 Proof. vm_compute. repeat split. Qed.
 
 (* handleFileBegin = [begin_ops]: validate, join, MkdirAll(Dir), OpenFile, Truncate,
-   then the sidecar paths, Remove primary / fallback, LoadOrCreateSidecarWithFallback *)
+   then - without resume - Remove of the two metadata paths of the item ([plain_meta_ops]), and
+   - with resume - the sidecar paths, Remove primary / fallback, LoadOrCreateSidecarWithFallback *)
 Lemma filebegin_calls :
   before "validateRelPath" "Join" (main_path sk_c07_filebegin) = true /\
-  fs_calls sk_c07_filebegin = ["MkdirAll"; "OpenFile"; "Truncate"; "Remove"; "Remove"] /\
-  count "SidecarPath" (all_calls sk_c07_filebegin) = 2 /\
+  fs_calls sk_c07_filebegin = ["MkdirAll"; "OpenFile"; "Truncate"; "Remove"; "Remove"; "Remove"; "Remove"] /\
+  count "SidecarPath" (all_calls sk_c07_filebegin) = 4 /\
   before "SidecarPath" "LoadOrCreateSidecarWithFallback" (all_calls sk_c07_filebegin) = true.
 Proof. vm_compute. repeat split. Qed.
 
@@ -64,7 +65,7 @@ Proof. vm_compute. repeat split. Qed.
 
 (* completeness of the enumeration with respect to package os: in the files the
    property is anchored in, these are ALL creating/modifying/deleting os calls.
-   Modelled: RecvManifestMultiStream (3 MkdirAll, OpenFile, 2 Remove), openFile (re-open
+   Modelled: RecvManifestMultiStream (3 MkdirAll, OpenFile, 2 + 2 Remove: the metadata paths, without and with resume), openFile (re-open
    of the same validated path), sidecar.go, clearResumeData; RunSnapshotReceiver's
    MkdirAll is the output directory itself.  Not modelled (legacy receivers, which
    share validateManifestPaths / validateRelPath / validateFilename):
@@ -74,6 +75,7 @@ Lemma os_call_sites :
   os_sites_multistream =
     [("RecvManifestMultiStream", "MkdirAll"); ("RecvManifestMultiStream", "MkdirAll");
      ("RecvManifestMultiStream", "MkdirAll"); ("RecvManifestMultiStream", "OpenFile");
+     ("RecvManifestMultiStream", "Remove"); ("RecvManifestMultiStream", "Remove");
      ("RecvManifestMultiStream", "Remove"); ("RecvManifestMultiStream", "Remove");
      ("RecvManifestMultiStreamLegacy", "MkdirAll"); ("RecvManifestMultiStreamLegacy", "MkdirAll");
      ("RecvManifestMultiStreamLegacy", "MkdirAll"); ("RecvManifestMultiStreamLegacy", "MkdirAll");
